@@ -258,7 +258,9 @@ BLANK_X = {
     'zero': [0, 0.0], 'empty_text': [''], 'false': [False],
     'positive': [1, 0.5, 5e-324, 1e308, 2 ** 53 + 1], 'text': ['a', 'A', ' ', 'abc', 'Я', '0x', 'z'],
     'numeric_text': ['5', '0.5', '1e3'], 'neg_numeric_text': ['-5'],
-    'date': [dt.datetime(1900, 1, 1), dt.datetime(2024, 1, 1), dt.date(2024, 1, 1), dt.datetime(2024, 1, 1, 12), dt.datetime(9999, 12, 31)],
+    'date': [dt.datetime(1900, 1, 1), dt.datetime(2024, 1, 1), dt.date(2024, 1, 1), dt.datetime(2024, 1, 1, 12), dt.datetime(9999, 12, 31),
+             # "every date": also the ones no workbook cell can hold (serial 0 and below), reachable by overrides and by date arithmetic
+             dt.datetime(1899, 12, 31), dt.datetime(1899, 12, 30), dt.datetime(1899, 12, 29), dt.datetime(1850, 6, 15), dt.date(1600, 2, 29), dt.datetime(1, 1, 1)],
 }
 EQ_ROW = {'<': False, '=': True, '>': False, '<>': False, '<=': True, '>=': True}
 LT_ROW = {'<': True, '=': False, '>': False, '<>': True, '<=': True, '>=': False}
